@@ -76,6 +76,14 @@ def _check_value(acc, crc7, msg, container="bytes", mode="value"):
     del _PREV[:-2]
     before = _TOTAL[0]
     _TOTAL[0] += len(msg)
+    if 0 < len(msg) <= 8 and sum(msg) % 4 == 0 and mode != "pairs":
+        # the same contents were offered a moment ago in a form crc7() refuses (float elements: TypeError); whatever that call
+        # left behind must not show in the valid call (decided by the message itself, so a replay repeats it)
+        try:
+            crc7([float(b) for b in msg])
+            acc.ev("float-elements-accepted(observation)")
+        except Exception:  # noqa
+            acc.ev("refused-call-with-the-same-contents-first")
     try:
         got = crc7(data=_mk(container, msg)) if len(msg) % 5 == 3 else crc7(_mk(container, msg))      # (the parameter is called data)
     except Exception as ex:  # noqa
@@ -445,6 +453,12 @@ def run_shard(spec):
                 acc.nontrivial.add(stable_hash(["detr", list(msg), bits]))
                 run_case(acc, crc7mod, {"mode": "detect", "msg": list(msg), "bits": list(bits)})
         acc.samples.append({"mode": "detect", "lengths": spec["lens"][:6], "patterns_checked": acc.checks})
+    if not spec.get("_in_replay"):
+        for v in acc.violations:
+            # what crc7() did with the calls that came earlier in the shard is part of the case's history: a replay that does
+            # not reproduce the case alone repeats the whole shard and accepts the same kind of violation there
+            if isinstance(v.get("case"), dict):
+                v["case"] = dict(v["case"], shard_spec={k: x for k, x in spec.items()}, vkey=v["key"])
     return acc.result()
 
 
@@ -467,4 +481,11 @@ def replay(pid, case):
             return {"key": "C20/value-mismatch", "what": f"crc7() under `python {case['flag']}` differs from the bit-serial CRC-7", "case": case, "detail": {}}
         return None
     run_case(acc, crc7mod, case)
+    if not acc.violations and case.get("shard_spec") and case["shard_spec"].get("mode") != "pyopt":
+        res = run_shard(dict(case["shard_spec"], _in_replay=True))
+        same = [v for v in res["violations"] if v["key"] == case.get("vkey")]
+        if same:
+            v = same[0]
+            v["what"] = "(reproduced by repeating the shard's whole call sequence) " + v["what"]
+            return v
     return acc.violations[0] if acc.violations else None
